@@ -281,6 +281,8 @@ KNOWN_BAD = {
          "#[derive(Debug, Clone, PartialEq, Difference)]\npub struct D<T: Clone + PartialEq + std::fmt::Debug, U: Into<T> + Clone + PartialEq + std::fmt::Debug> { pub x: U, #[difference(skip)] pub y: std::marker::PhantomData<T> }\n"),
  'D19b': ("a lifetime bound of a used lifetime mentions a lifetime that no unskipped field uses",
           "#[derive(Debug, Clone, PartialEq, Difference)]\npub struct D<'a, 'b: 'a> { pub x: Option<&'b u8>, #[difference(skip)] pub y: std::marker::PhantomData<&'a u8> }\n"),
+ 'D20': ("a field type that mentions `Self` (inside the generated diff enum `Self` names the enum)",
+         "#[derive(Debug, Clone, PartialEq, Difference)]\npub struct D { pub val: i64, pub next: Option<Box<Self>> }\n"),
  'D7': ("trailing comma inside a difference attribute", "#[derive(Debug, Clone, PartialEq, Difference)]\npub struct D { #[difference(skip,)] pub f0: i64, pub f1: i64 }\n"),
  'D8': ("generic parameter used only behind a reference inside another type", "#[derive(Debug, Clone, PartialEq, Difference)]\npub struct D<'a, T> { pub o: Option<&'a T> }\n"),
  'D9': ("bare reference field", "#[derive(Debug, Clone, PartialEq, Difference)]\npub struct D<'a> { pub o: &'a u8 }\n"),
